@@ -113,6 +113,8 @@ def _check(mod, meta, prop, tier, seed, repo, jobs, replay, workdir, t0, quiet):
             'case_cpu_s': meta.get('case_cpu_s', {}).get(tier, 3600 if tier == 'quick' else 10800),
             'mem_gib': meta.get('mem_gib', 6)}
     base.update(meta.get('spec', {}).get(tier, {}))
+    base['known_mechanisms'] = [k['mechanism'] for k in _known_findings()
+                                if k.get('property') == prop and k.get('status') == 'known']
     if replay is not None:
         with open(replay) as f:
             rep = json.load(f)
